@@ -73,6 +73,7 @@ fn main() {
         "memops" => drv_tables::memops(&mut out, seed, thorough, scn.as_deref()),
         "memfaults" => drv_rx::memfaults(&mut out, seed, thorough),
         "custcrc" => drv_chains::custcrc(&mut out, seed, thorough),
+        "sysscn" => drv_labels::sysscn(&mut out, scn.as_deref().unwrap_or(""), seed),
         _ => {
             eprintln!("unknown driver {}", driver);
             std::process::exit(2);
